@@ -39,20 +39,20 @@ pub mod verif {
     use super::dependency_queue::DependencyQueue;
     use super::{InstructionFrameInteraction, MemoryAccessType, ScheduledGraphNode};
 
-    /// Feed `accesses` (access `i` performed by node `InstructionIndex(i)`) to a fresh memory
-    /// queue.  Returns the dependencies reported at each step and the pending set at the end.
+    /// Feed `accesses` (each performed by node `InstructionIndex(node)`) to a fresh memory queue.
+    /// Returns the dependencies reported at each step and the pending set at the end.
     #[allow(clippy::type_complexity)]
     pub fn memory_queue_trace(
-        accesses: &[MemoryAccessType],
+        accesses: &[(usize, MemoryAccessType)],
     ) -> (
         Vec<Vec<(MemoryAccessType, ScheduledGraphNode)>>,
         Vec<(MemoryAccessType, ScheduledGraphNode)>,
     ) {
         let mut queue: DependencyQueue<MemoryAccessType> = DependencyQueue::new();
         let mut steps = Vec::new();
-        for (index, access) in accesses.iter().enumerate() {
+        for (node, access) in accesses.iter() {
             let deps = queue.record_access_and_get_dependencies(
-                ScheduledGraphNode::InstructionIndex(index),
+                ScheduledGraphNode::InstructionIndex(*node),
                 *access,
             );
             steps.push(deps.into_iter().map(|d| (d.access_type, d.node_id)).collect());
@@ -67,13 +67,13 @@ pub mod verif {
 
     /// Same as [`memory_queue_trace`] for a frame queue (implicit initial writer: block start).
     pub fn frame_queue_trace(
-        accesses: &[InstructionFrameInteraction],
+        accesses: &[(usize, InstructionFrameInteraction)],
     ) -> (Vec<Vec<ScheduledGraphNode>>, Vec<ScheduledGraphNode>) {
         let mut queue: DependencyQueue<InstructionFrameInteraction> = DependencyQueue::new();
         let mut steps = Vec::new();
-        for (index, access) in accesses.iter().enumerate() {
+        for (node, access) in accesses.iter() {
             let deps = queue.record_access_and_get_dependencies(
-                ScheduledGraphNode::InstructionIndex(index),
+                ScheduledGraphNode::InstructionIndex(*node),
                 *access,
             );
             steps.push(deps.into_iter().collect());
